@@ -5,6 +5,8 @@ import (
 	"errors"
 	"fmt"
 	"sort"
+	"strings"
+	"sync/atomic"
 	"time"
 
 	"go.opentelemetry.io/otel/sdk/metric/metricdata"
@@ -257,6 +259,22 @@ func runFull(r *simkit.Run, prop string) {
 		panic(err)
 	}
 	s.exp = exp
+	// A storage call issued while the persistent queue's mutex is free is a schedule point (as in C01): the calling
+	// goroutine parks and continues as an event of its own. On a tree that does all its storage I/O inside the
+	// queue's critical sections none is.
+	var noPark atomic.Bool
+	noPark.Store(true)
+	if cfg.Persistent {
+		probe := findLockProbe(exp, "persistentQueue")
+		var seq atomic.Int64
+		inc.Before = func(ops []string) {
+			if noPark.Load() || !probe.free() {
+				return
+			}
+			r.Count("fault.parked_at_storage_call_outside_queue_lock")
+			s.yg.Park(fmt.Sprintf("yield:storage#%03d", seq.Add(1)))
+		}
+	}
 	host := &simHost{ext: map[component.ID]component.Component{storageID: inc}}
 	sctx, started := simkit.StartContext(tp)
 	if err := exp.Start(sctx, host); err != nil {
@@ -264,6 +282,7 @@ func runFull(r *simkit.Run, prop string) {
 	}
 	started()
 	r.Settle()
+	noPark.Store(false)
 
 	for step := 0; step < cfg.Steps && !r.Failed(); step++ {
 		var ch []simkit.Choice
@@ -296,7 +315,9 @@ func runFull(r *simkit.Run, prop string) {
 	// quiet phase: the backend answers everything successfully; shutdown must return
 	// (without a queue Shutdown does not wait for the callers' own export calls: let those finish too)
 	for i := 0; i < 300 && !r.Failed() && (!s.shut.Done() || (cfg.NoQueue && len(s.be.gate.Parked()) > 0)); i++ {
-		if ids := s.be.gate.Parked(); len(ids) > 0 {
+		if id := firstWithPrefix(s.yg.Parked(), "yield:storage"); id != "" {
+			r.Fire("quiet-release:"+id, func() { s.yg.Release(id, nil) })
+		} else if ids := s.be.gate.Parked(); len(ids) > 0 {
 			id := ids[0]
 			r.Fire("quiet-ok:"+id, func() { s.be.answer(id, nil) })
 		} else {
@@ -346,6 +367,15 @@ func runFull(r *simkit.Run, prop string) {
 	}
 	_ = s.tel.Shutdown(context.Background())
 	r.Virtual = time.Since(start)
+}
+
+func firstWithPrefix(ids []string, prefix string) string {
+	for _, id := range ids {
+		if strings.HasPrefix(id, prefix) {
+			return id
+		}
+	}
+	return ""
 }
 
 func (s *fullSim) cleanup() {
